@@ -411,6 +411,8 @@ def run(ctx):
         sub_special(case)
 
     sp = st.builds(lambda a, x, p: {"a": a, "x": x, "p": p}, st.one_of(st.floats(1e-3, 1e4), st.floats(0.05, 500)),
-                   st.one_of(st.floats(0, 1e5), st.floats(0, 50)), st.one_of(st.floats(0, 1), st.floats(1e-300, 1e-10), st.floats(0.99, 1)))
+                   st.one_of(st.floats(0, 1e5), st.floats(0, 50)), st.one_of(st.floats(0, 1), st.floats(1e-300, 1e-10), st.floats(0.99, 1),
+                             st.sampled_from([1.0 - 2.0 ** -53, 1.0 - 2.0 ** -52, 1.0 - 2.0 ** -51, 2.0 ** -1074, 2.0 ** -1022, 0.5, 0.0, 1.0,
+                                              0.5 + 2.0 ** -53, 0.5 - 2.0 ** -54])))
     ctx.given("special", sp, ctx.n(1500, 20000), fn=f_s)
     rec.extra["disagreements_checked"] = checked["n"]
